@@ -114,7 +114,16 @@ def make_classes():
             # all gymnasium promises. Every step uses another representation.
             t, u = (FLAG_FORMS[k % 3](t), FLAG_FORMS[(k + 1) % 3](u))
             # reward: a dyadic float, distinct per step
-            out = (("S", k), k / 4 - 1, t, u, {"step": k})
+            # `info` is the environment's own business: the keys some gymnasium wrappers and vector
+            # environments use are as good as any others and mean nothing to the adapter
+            info = {"step": k}
+            if k % 2 == 0:
+                info["final_observation"] = ("F", k)
+                info["final_info"] = {"k": k}
+            if k % 3 == 0:
+                info["episode"] = {"r": 1.0, "l": k}
+                info["TimeLimit.truncated"] = bool(u)
+            out = (("S", k), k / 4 - 1, t, u, info)
             self.rec.events.append(f"envStep:{k}:{act_label(action)}:{b(t)}:{b(u)}")
             self.rec.raw.append(("envStep", k, action, out))
             return out
